@@ -552,7 +552,7 @@ pub fn run(args: &Args) -> i32 {
     ctx.rule = format!(
         "E-PROD over boundary values through a sparse in-memory sink/source (64 KiB pages; zero pages are holes). Entry counts {:?} x comment {{none, 'c'}}. Size/offset cases ({}): stored zero-filled entries of {:?} bytes x large_file {{no,yes}} (first, and followed by a small entry with an archive comment); \
          small entries whose local header offset is exactly {:?}; an entry of exactly 2^32-1 bytes behind the 4 GiB mark{}. Oracle: without large_file, more than 2^32-1 bytes must be refused by some call and never end in a finished archive with other sizes; otherwise finish succeeds and both the strict independent parser (on the sparse blob) and the crate reader \
-         recover count, every size, CRC (of zeros, computed by CRC combination), every offset, and the full content length. Foreign: sparse hand-built archives with true > 4 GiB size and/or header offset, with minimal and with all-fields ZIP64 blocks (6 layouts); raw copy of a 2^32+1-byte entry between sparse archives. distinct_nontrivial = number of distinct cases (each is unique).",
+         recover count, every size, CRC (of zeros, computed by CRC combination), every offset, and the full content length. Foreign: 512 small builder-made archives with ZIP64 values forced in every subset of {{size, compressed size, offset}} (sizes differing, block before/after other blocks, with/without local ZIP64 block and 64-bit data descriptor); sparse hand-built archives with true > 4 GiB size and/or header offset, with minimal and with all-fields ZIP64 blocks (6 layouts); raw copy of a 2^32+1-byte entry between sparse archives. distinct_nontrivial = number of distinct cases (each is unique).",
         counts,
         cases.len(),
         sizes,
@@ -590,6 +590,46 @@ pub fn run(args: &Args) -> i32 {
         }
     });
     ctx.stats.merge(s);
+    // foreign small archives with ZIP64 values forced in every subset of {uncompressed size, compressed size, offset},
+    // sizes differing (compressed payloads), block before/after other extra blocks, with and without a local ZIP64 block
+    {
+        use crate::props::c03;
+        use crate::reference::zipbuild::{build, extra_block, Dd, ESpec, Spec};
+        let mut specs: Vec<Spec> = vec![];
+        for m in [0u16, 8, 12, 93] {
+            for subset in 0..8u8 {
+                for after in [false, true] {
+                    for local in [false, true] {
+                        for dd in [Dd::None, Dd::Sig64] {
+                            let content: Vec<u8> = b"zip64 fields forced on a small file ".repeat(8);
+                            let e = ESpec {
+                                name: b"z".to_vec(),
+                                method: m,
+                                content,
+                                zip64_central: subset,
+                                zip64_after: after,
+                                zip64_local: local,
+                                dd,
+                                central_extra: extra_block(0x7777, b"other"),
+                                ..Default::default()
+                            };
+                            let second = ESpec { name: b"second".to_vec(), method: 8, content: b"second entry".to_vec(), zip64_central: subset ^ 7, ..Default::default() };
+                            specs.push(Spec { entries: vec![e.clone()], force_zip64_eocd: subset % 2 == 0, ..Default::default() });
+                            specs.push(Spec { entries: vec![e, second], prefix: vec![0x5a; 17], ..Default::default() });
+                        }
+                    }
+                }
+            }
+        }
+        ctx.bound("foreign_zip64_subsets_on_small_files", json!(specs.len()));
+        let specs_r = &specs;
+        let s = par_for(specs.len() as u64, 8, |i, st| {
+            let spec = &specs_r[i as usize];
+            let (bytes, lay) = build(spec);
+            c03::check_archive(spec, &bytes, &lay, st, (7 << 40) + i, "zip64-subsets");
+        });
+        ctx.stats.merge(s);
+    }
     ctx.stats.sample(json!({"kind": "count", "n": 65536}));
     ctx.distinct_counted = ctx.stats.evals;
     ctx.stats.states = ctx.stats.evals;
